@@ -91,6 +91,8 @@ pub use codeq;
 pub mod api;
 pub mod dump_writer;
 pub mod errors;
+#[cfg(feature = "verif-hooks")]
+pub mod verif_hooks;
 
 pub use api::types::Types;
 pub use chunk::chunk_id::ChunkId;
